@@ -338,6 +338,7 @@ class FakeK8s:
         self.watch_policy: Callable[[Watch, dict[str, Any]], bool] | None = None   # True = deliver now
         self.valid_gens: set[int] | None = None       # None: credentials are not checked
         self.posted_events: list[dict[str, Any]] = []
+        self.projector: Callable[[ResDef, dict[str, Any]], Any] | None = None   # abstract state for the traces
         self.add_resource(ResDef('', 'v1', 'namespaces', 'Namespace', namespaced=False))
         self.add_resource(ResDef('', 'v1', 'events', 'Event', namespaced=True, verbs=('create',)))
         self.add_resource(ResDef('apiextensions.k8s.io', 'v1', 'customresourcedefinitions', 'CustomResourceDefinition',
@@ -393,6 +394,9 @@ class FakeK8s:
         if self.watch_policy is None or self.watch_policy(w, w.pending[-1]):
             w.release()
 
+    def _proj(self, res: ResDef, o: dict[str, Any]) -> Any:
+        return self.projector(res, o) if self.projector is not None else None
+
     def get(self, res: ResDef, ns: str | None, name: str) -> dict[str, Any] | None:
         return self.objs.get((res.key, ns if res.namespaced else None, name))
 
@@ -411,7 +415,7 @@ class FakeK8s:
         md['resourceVersion'] = str(self._bump())
         self._normalise(o)
         self.objs[key] = o
-        self.rec('srv.create', actor=actor, res=res.plural, name=name, uid=md['uid'], rv=self.rv)
+        self.rec('srv.create', actor=actor, res=res.plural, name=name, uid=md['uid'], rv=self.rv, proj=self._proj(res, o))
         self._emit(res, 'ADDED', o)
         return o
 
@@ -429,6 +433,8 @@ class FakeK8s:
         gone = bool(new['metadata'].get('deletionTimestamp')) and not new['metadata'].get('finalizers')
         self.rec('srv.write', actor=actor, how=how, res=res.plural, name=key[2], uid=new['metadata']['uid'],
                  rv=self.rv, noop=False, gone=gone)
+        self.events_last_proj = self._proj(res, new)
+        self.rec('srv.state', res=res.plural, name=key[2], uid=new['metadata']['uid'], rv=self.rv, gone=gone, proj=self.events_last_proj)
         if gone:
             del self.objs[key]
             self._emit(res, 'DELETED', new)
@@ -630,6 +636,7 @@ class FakeK8s:
                 if f in old['metadata']: new.setdefault('metadata', {})[f] = old['metadata'][f]
                 else: new.get('metadata', {}).pop(f, None)
             body, changed = self._after_write(res, key, old, new, req.session.owner, f'{r["ptype"]}{"/status" if sub else ""}')
-            req.info = {'uid': old['metadata']['uid'], 'rv_after': _rvint(body['metadata']['resourceVersion']), 'changed': changed}
+            req.info = {'uid': old['metadata']['uid'], 'rv_after': _rvint(body['metadata']['resourceVersion']), 'changed': changed,
+                        'gone': key not in self.objs, 'proj': self._proj(res, body)}
             return Resp(200, body)
         return Resp(405, status_payload(405, 'method not allowed'))
